@@ -920,3 +920,165 @@ Proof.
     pose proof (Hq _ _ L1 P1). pose proof (Hq _ _ L2 P2). subst. cbn [strip m_id].
     eapply same_dec_len_in; [exact Hlen | apply ids_for_in; exact L1 | apply ids_for_in; exact L2].
 Qed.
+
+(* ------------------------------------------------------------ C17: trace-level isolation (badger) *)
+(* two stores agree outside q's scan prefix *)
+Definition off (q : bytes) (k : key) : Prop := is_prefix (msg_prefix_del q) k = false.
+Definition agree_map (q : bytes) (m1 m2 : kv msg) : Prop := forall k, off q k -> kv_get m1 k = kv_get m2 k.
+Definition agree_fly (q : bytes) (f1 f2 : option inflight) : Prop :=
+  match f1, f2 with
+  | None, None => True
+  | Some a, Some b => if_stage a = if_stage b /\ agree_map q (if_add a) (if_add b) /\ agree_map q (if_upd a) (if_upd b) /\
+                      agree_map q (if_del a) (if_del b)
+  | _, _ => False
+  end.
+Record agree (q : bytes) (s1 s2 : mstore) : Prop := {
+  ag_wf1 : ms_wf s1; ag_wf2 : ms_wf s2;
+  ag_e1 : ms_engine s1 = Badger; ag_e2 : ms_engine s2 = Badger;
+  ag_p : ms_persistent s1 = ms_persistent s2; ag_c : ms_confirm s1 = ms_confirm s2;
+  ag_db : agree_map q (ms_db s1) (ms_db s2); ag_add : agree_map q (ms_add s1) (ms_add s2);
+  ag_upd : agree_map q (ms_upd s1) (ms_upd s2); ag_del : agree_map q (ms_del s1) (ms_del s2);
+  ag_fly : agree_fly q (ms_fly s1) (ms_fly s2)
+}.
+
+Lemma agree_set_both : forall q m1 m2 k v, agree_map q m1 m2 -> agree_map q (kv_set m1 k v) (kv_set m2 k v).
+Proof. intros q m1 m2 k v H x Hx. rewrite !get_set. destruct (keqb x k); [reflexivity | apply H; exact Hx]. Qed.
+
+Lemma agree_set_left : forall q m1 m2 k v, agree_map q m1 m2 -> is_prefix (msg_prefix_del q) k = true -> agree_map q (kv_set m1 k v) m2.
+Proof.
+  intros q m1 m2 k v H Hk x Hx. rewrite get_set. destruct (keqb x k) eqn:E; [|apply H; exact Hx].
+  apply keqb_eq in E. subst. unfold off in Hx. congruence.
+Qed.
+
+Lemma agree_filter_mem : forall q (a1 a2 d1 d2 : kv msg), agree_map q a1 a2 -> agree_map q d1 d2 ->
+  agree_map q (filter (fun e => negb (kv_mem d1 (fst e))) a1) (filter (fun e => negb (kv_mem d2 (fst e))) a2).
+Proof.
+  intros q a1 a2 d1 d2 Ha Hd x Hx.
+  rewrite (get_filter msg (fun k => negb (kv_mem d1 k))), (get_filter msg (fun k => negb (kv_mem d2 k))).
+  unfold kv_mem. rewrite (Hd x Hx), (Ha x Hx). reflexivity.
+Qed.
+
+Lemma agree_step_left : forall q s1 s2 l, agree q s1 s2 -> addressed_to q l = true -> agree q (fst (ms_step s1 l)) s2.
+Proof.
+  intros q s1 s2 l H Hl. pose proof (wf_step s1 l (ag_wf1 _ _ _ H)) as Hwf. destruct H.
+  unfold addressed_to in Hl. destruct l; cbn in Hl; try discriminate; apply bytes_eqb_eq in Hl; subst; cbn [ms_step fst] in *.
+  - constructor; try assumption. cbn. apply agree_set_left; [assumption | apply msg_key_under_own_prefix].
+  - constructor; try assumption. cbn. apply agree_set_left; [assumption | apply msg_key_under_own_prefix].
+  - constructor; try assumption. cbn. apply agree_set_left; [assumption | apply msg_key_under_own_prefix].
+  - constructor; try assumption. unfold ms_purge, set_db. cbn [ms_db]. rewrite ag_e3. unfold eng_del_prefix.
+    rewrite (proj1 (proj2 gen_badger_not_stub)). intros x Hx. rewrite get_del_prefix. unfold off in Hx. rewrite Hx. apply ag_db0. exact Hx.
+  - destruct (ms_iter_from s1 q0 id limit). constructor; assumption.
+  - constructor; assumption.
+  - destruct (ms_iter s1 q0 limit). constructor; assumption.
+  - destruct (ms_recover s1 q0 limit). constructor; assumption.
+Qed.
+
+Lemma agree_swap : forall q s1 s2, agree q s1 s2 -> agree q (fst (ms_swap s1)) (fst (ms_swap s2)).
+Proof.
+  intros q s1 s2 H. pose proof (wf_swap s1 (ag_wf1 _ _ _ H)) as W1. pose proof (wf_swap s2 (ag_wf2 _ _ _ H)) as W2. destruct H.
+  unfold ms_swap in *. destruct (ms_fly s1) as [f1|] eqn:E1, (ms_fly s2) as [f2|] eqn:E2; cbn in ag_fly0; try contradiction; cbn [fst] in *.
+  - constructor; try assumption. rewrite E1, E2. exact ag_fly0.
+  - constructor; try assumption; cbn; try (intros x Hx; reflexivity).
+    unfold cancel_add, cancel_upd, cancel_del. cbn. repeat split; apply agree_filter_mem; assumption.
+Qed.
+
+Lemma agree_batch : forall q s1 s2, agree q s1 s2 -> agree q (fst (ms_batch s1)) (fst (ms_batch s2)).
+Proof.
+  intros q s1 s2 H. pose proof (wf_batch s1 (ag_wf1 _ _ _ H)) as W1. pose proof (wf_batch s2 (ag_wf2 _ _ _ H)) as W2. destruct H.
+  unfold ms_batch in *. destruct (ms_fly s1) as [f1|] eqn:E1, (ms_fly s2) as [f2|] eqn:E2; cbn in ag_fly0; try contradiction.
+  - destruct ag_fly0 as (Hs & Ha & Hu & Hd). rewrite <- Hs in *. destruct (if_stage f1) eqn:Es.
+    + rewrite ag_e3, ag_e4 in *. cbn [eng_batch fst] in *.
+      destruct ag_wf3 as (_ & _ & _ & _ & F1). destruct ag_wf4 as (_ & _ & _ & _ & F2). rewrite E1 in F1. rewrite E2 in F2. cbn in F1, F2.
+      constructor; try assumption; unfold set_db; cbn [ms_db ms_add ms_upd ms_del ms_fly ms_engine ms_persistent ms_confirm if_stage if_add if_upd if_del agree_fly].
+      * intros x Hx. rewrite !get_persist_batch by tauto. unfold kv_mem. rewrite (Hd x Hx), (Hu x Hx), (Ha x Hx), (ag_db0 x Hx). reflexivity.
+      * repeat split; assumption.
+    + cbn [fst] in *. constructor; try assumption. rewrite E1, E2. cbn. rewrite ?Es. repeat split; try assumption; try congruence.
+  - cbn [fst] in *. constructor; try assumption. rewrite E1, E2. exact I.
+Qed.
+
+Lemma agree_confirm : forall q s1 s2, agree q s1 s2 -> agree q (fst (ms_confirm_step s1)) (fst (ms_confirm_step s2)).
+Proof.
+  intros q s1 s2 H. pose proof (wf_confirm s1 (ag_wf1 _ _ _ H)) as W1. pose proof (wf_confirm s2 (ag_wf2 _ _ _ H)) as W2. destruct H.
+  unfold ms_confirm_step in *. destruct (ms_fly s1) as [f1|] eqn:E1, (ms_fly s2) as [f2|] eqn:E2; cbn in ag_fly0; try contradiction.
+  - destruct ag_fly0 as (Hs & Ha & Hu & Hd). rewrite <- Hs in *. destruct (if_stage f1) eqn:Es; cbn [fst] in *.
+    + constructor; try assumption. rewrite E1, E2. cbn. rewrite ?Es. repeat split; try assumption; try congruence.
+    + constructor; try assumption. cbn. exact I.
+  - cbn [fst] in *. constructor; try assumption. rewrite E1, E2. exact I.
+Qed.
+
+Lemma agree_kill : forall q s1 s2, agree q s1 s2 -> agree q (ms_kill s1) (ms_kill s2).
+Proof.
+  intros q s1 s2 H. pose proof (wf_kill s1 (ag_wf1 _ _ _ H)) as W1. pose proof (wf_kill s2 (ag_wf2 _ _ _ H)) as W2. destruct H.
+  constructor; try assumption; cbn; try (intros x Hx; reflexivity); try exact I.
+  rewrite <- ag_p0. destruct (ms_persistent s1); [exact ag_db0 | intros x Hx; reflexivity].
+Qed.
+
+Lemma agree_step_both : forall q s1 s2 l, agree q s1 s2 -> addressed_to q l = false ->
+  agree q (fst (ms_step s1 l)) (fst (ms_step s2 l)).
+Proof.
+  intros q s1 s2 l H Hl. pose proof (wf_step s1 l (ag_wf1 _ _ _ H)) as W1. pose proof (wf_step s2 l (ag_wf2 _ _ _ H)) as W2.
+  destruct l; cbn [ms_step fst] in *.
+  - destruct H. constructor; try assumption. cbn. apply agree_set_both. assumption.
+  - destruct H. constructor; try assumption. cbn. apply agree_set_both. assumption.
+  - destruct H. constructor; try assumption. cbn. apply agree_set_both. assumption.
+  - destruct H. constructor; try assumption. unfold ms_purge, set_db. cbn [ms_db]. rewrite ag_e3, ag_e4. unfold eng_del_prefix.
+    rewrite (proj1 (proj2 gen_badger_not_stub)). intros x Hx. rewrite !get_del_prefix. destruct (is_prefix (msg_prefix_del q0) x); [reflexivity | apply ag_db0; exact Hx].
+  - destruct (ms_iter_from s1 q0 id limit), (ms_iter_from s2 q0 id limit). exact H.
+  - exact H.
+  - destruct (ms_iter s1 q0 limit), (ms_iter s2 q0 limit). exact H.
+  - destruct (ms_recover s1 q0 limit), (ms_recover s2 q0 limit). exact H.
+  - apply agree_swap. exact H.
+  - apply agree_batch. exact H.
+  - apply agree_confirm. exact H.
+  - rewrite !seq_steps_fst. apply agree_confirm, agree_batch, agree_swap. exact H.
+  - apply agree_kill. exact H.
+Qed.
+
+Lemma agree_run : forall q ls s1 s2, agree q s1 s2 ->
+  agree q (fst (ms_run s1 ls)) (fst (ms_run s2 (filter (fun l => negb (addressed_to q l)) ls))).
+Proof.
+  induction ls as [|l r IH]; intros s1 s2 H; [exact H|]. rewrite run_cons. cbn [fst filter].
+  destruct (addressed_to q l) eqn:E; cbn [negb].
+  - apply IH. apply agree_step_left; assumption.
+  - rewrite run_cons. cbn [fst]. apply IH. apply agree_step_both; assumption.
+Qed.
+
+Lemma agree_refl : forall q e p c, e = Badger -> agree q (ms_init e p c) (ms_init e p c).
+Proof.
+  intros q e p c ->. constructor; try (apply (wf_init Badger p c)); try reflexivity; try (intros x Hx; reflexivity).
+  all: try exact I.
+Qed.
+
+Lemma under_agree : forall q q' (m1 m2 : kv msg), q <> q' -> nof21_pair q q' = true -> nof21_pair q' q = true ->
+  ksorted m1 -> ksorted m2 -> agree_map q m1 m2 -> under q' m1 = under q' m2.
+Proof.
+  intros q q' m1 m2 Hne H1 H2 S1 S2 Ha. unfold under, kv_filter_prefix.
+  apply ksorted_ext; try (apply ksorted_filter; assumption).
+  intro k. rewrite !(get_filter msg (fun x => is_prefix (msg_prefix_del q') x)).
+  destruct (is_prefix (msg_prefix_del q') k) eqn:E; [|reflexivity]. apply Ha. unfold off. eapply prefixes_disjoint; eassumption.
+Qed.
+
+(* removing every API call addressed to q from a run - ticks, persist phases, kills and the other queues' calls kept -
+   leaves everything the store holds for q' (engine entries, pending maps, the batch in flight) unchanged *)
+Theorem store_isolation_trace : forall p c ls q q', q <> q' -> nof21_pair q q' = true -> nof21_pair q' q = true ->
+  messages_of (fst (ms_run (ms_init Badger p c) ls)) q' =
+  messages_of (fst (ms_run (ms_init Badger p c) (filter (fun l => negb (addressed_to q l)) ls))) q'.
+Proof.
+  intros p c ls q q' Hne H1 H2. pose proof (agree_run q ls _ _ (agree_refl q Badger p c eq_refl)) as H.
+  remember (fst (ms_run (ms_init Badger p c) ls)) as s1.
+  remember (fst (ms_run (ms_init Badger p c) (filter (fun l => negb (addressed_to q l)) ls))) as s2.
+  destruct H. destruct ag_wf3 as (D1 & A1 & U1 & L1 & F1). destruct ag_wf4 as (D2 & A2 & U2 & L2 & F2).
+  unfold messages_of. f_equal; try (apply (under_agree q q'); assumption).
+  unfold fly_under. destruct (ms_fly s1) as [f1|], (ms_fly s2) as [f2|]; cbn in ag_fly0; try contradiction; [|reflexivity].
+  destruct ag_fly0 as (Hs & Ha & Hu & Hd). cbn in F1, F2. rewrite Hs.
+  rewrite (under_agree q q' (if_add f1) (if_add f2)), (under_agree q q' (if_upd f1) (if_upd f2)), (under_agree q q' (if_del f1) (if_del f2)); try tauto.
+Qed.
+
+(* buntdb: a Del of an absent key of queue "a" fails the whole batch, and the message of queue "b" in it is lost *)
+Lemma bunt_trace_isolation_refuted : exists ls q q', q <> q' /\ nof21_pair q q' = true /\ nof21_pair q' q = true /\
+  messages_of (fst (ms_run (ms_init Bunt true true) ls)) q' <>
+  messages_of (fst (ms_run (ms_init Bunt true true) (filter (fun l => negb (addressed_to q l)) ls))) q'.
+Proof.
+  exists [MAdd (mk 100 1) (bs "b"); MDel (mk 5 0) qa; MPersistTick], qa, (bs "b").
+  split; [discriminate|]. split; [reflexivity|]. split; [reflexivity|]. vm_compute. discriminate.
+Qed.
